@@ -791,6 +791,14 @@ func (ev *Evaluator) call(x *ECall) SVal {
 			}
 			key, srt := fx.tm.heapKey(t)
 			return SVal{v: Val{t: eq(fx.heap(ev.st, key, srt), fx.heap(ev.old, key, srt))}, typ: boolT}
+		case "int32OK":
+			a := ev.eval(x.Args[0])
+			fx.ufun("parseint32_ok", []string{"String"}, "Bool")
+			return SVal{v: Val{t: "(parseint32_ok " + a.v.t + ")"}, typ: boolT}
+		case "int32Val":
+			a := ev.eval(x.Args[0])
+			fx.ufun("parseint32_val", []string{"String"}, "Int")
+			return SVal{v: Val{t: "(parseint32_val " + a.v.t + ")"}, typ: intT}
 		case "atoiOK":
 			a := ev.eval(x.Args[0])
 			fx.ufun("atoi_ok", []string{"String"}, "Bool")
